@@ -1204,7 +1204,7 @@ def run_case(rep, drv, rng, d):
         po, qo = build(p), build(q)
         model_super(rep, drv, p, q, po.isSuperTypeOf(qo), qo.isSubTypeOf(po), po == qo, 'pair')
         if 'expect' in d and bool(po.isSuperTypeOf(qo)) != d['expect']:
-            rep.fail('union-operand-taken-for-imposed' if not d['expect'] else 'T6-derived-not-recognised:and',
+            rep.fail('not-imposing-type-recognised' if not d['expect'] else 'T6-derived-not-recognised:and',
                      'isSuperTypeOf is %s' % (not d['expect']), d)
     elif k == 'finding':
         known_finding_probes(rep)
